@@ -1,5 +1,7 @@
 # coding: utf-8
 """C13 — rotation of a circular record is a lossless group action."""
+EXTRA_OBLIGATION_FILES = ("Props/C13_src.v",)
+
 from harness import common, recutil
 
 LEVEL_NOTE = ("Theorems over polymorphic lists and Z coordinates for all lengths, all k in Z, all "
